@@ -331,6 +331,10 @@ def h_lists_paths_userdata(sx):
         else:
             lines = ["paths = features/a\n  features/b", "format = plain\n  progress", "outfiles = -\n  o1.txt" if stdout_first else "outfiles = o1.txt", "name = n1\n  n2\n  n3",
                      "tags = @x\n  @y", "[behave.userdata]", "foo = file", "keep = k", "MixedCase = V", "UPPER_NAME = u"]
+        no_format = (not stdout_first) and bool(sx.bool("outfiles_without_format"))
+        if no_format:
+            # the configuration file names an output file but no formatter (that comes from -f or the default)
+            lines = [l for l in lines if not l.startswith("format")]
         args = []
         if cmd_tags:
             args += ["--tags", "@cmd"]
@@ -352,11 +356,16 @@ def h_lists_paths_userdata(sx):
             outs = [rp(o.name) if o.name else None for o in cfg.outputs]
             sx.check(outs[:2] == [None, os.path.join(base, "o1.txt")], "C20.format-outfiles-paired-by-position",
                      detail=dict(det, got=outs, base=base))
+        elif no_format:
+            outs = [rp(o.name) for o in cfg.outputs if o.name]
+            sx.check(outs == [os.path.join(base, "o1.txt")], "C20.file-outfiles-relative-to-config-file",
+                     detail=dict(det, got=outs, base=base, outfiles_without_format=True))
         else:
             outs = [rp(o.name) for o in cfg.outputs if o.name]
             sx.check(outs[:2] == [os.path.join(base, "o1.txt"), os.path.join(base, "progress.output")], "C20.file-outfiles-relative-to-config-file",
                      detail=dict(det, got=outs, base=base))
-        sx.check(cfg.format[:2] == ["plain", "progress"], "C20.file-list-order-kept", detail=dict(det, got=cfg.format))
+        if not no_format:
+            sx.check(cfg.format[:2] == ["plain", "progress"], "C20.file-list-order-kept", detail=dict(det, got=cfg.format))
         sx.check(cfg.name == ["n1", "n2", "n3"], "C20.file-list-order-kept", detail=dict(det, got=cfg.name))
         if cmd_tags:
             sx.check(cfg.tags == ["@cmd"], "C20.cmdline-tags-win", detail=dict(det, got=cfg.tags))
